@@ -947,9 +947,17 @@ class Table:
         # Read through OUR backend rather than pyarrow's S3 filesystem (#54).
         with data_file_manager.open_parquet_source(data_file.file_path) as src:
             if compute_expr is not None:
-                # pyarrow applies `filters` against all needed columns during the
-                # scan and returns only `columns`, so pushdown is correct here.
-                return pq.read_table(src, columns=columns, filters=compute_expr)
+                # Filter in memory, exactly like the verified path above and
+                # like scan_batches(). Handing the expression to pyarrow as
+                # `filters=` lets it skip row groups by their parquet min/max
+                # statistics, which ignore NaN: a row group holding {1.0, NaN}
+                # was skipped for "x != 1.0", so scan(verify_checksums=False)
+                # returned fewer rows than every other scan API.
+                table = pq.read_table(src)
+                table = table.filter(compute_expr)
+                if columns is not None:
+                    table = table.select(columns)
+                return table
             return pq.read_table(src, columns=columns)
 
     def _scan_table(
